@@ -619,8 +619,14 @@ func (c *hijackedConn) Read(b []byte) (n int, err error) {
 	return
 }
 
+// Close closes the backend connection. (It used to do nothing, to keep
+// the transport from closing a connection that had been upgraded; the
+// transport has not done that since it hands upgraded connections to
+// the caller. As a no-op it left the connection of every request that
+// looked like an upgrade open when the client went away: the pending
+// body read never ended and the request was never released.)
 func (c *hijackedConn) Close() error {
-	return nil
+	return c.Conn.Close()
 }
 
 type connHijackerTransport struct {
